@@ -164,3 +164,54 @@ Proof.
   exact (one_unknown_textbook_accepts K Kok M Mok ofN toN OT enc dec DE g bits cap Hb LG LH HT Hpad EH EGb).
 Qed.
 Print Assumptions C03_one_unknown_member_among_honest.
+
+(** WHY THE CONTEXT EMBEDDING OF THE CHECKS IS A SOUND ORACLE (tools/lib/sessions.py verifies a triple again inside batches of honest
+    proofs and demands the same verdict): on the model, an arbitrary member that gets through its own per-member guards
+    ([passes_guards]: nothing about its validity), placed anywhere among members made by the code-shaped prover for valid witnesses,
+    contributes [w * residual] to the product the chunk ends with and the companions contribute nothing; so, for non-zero weights,
+    the chunk's product is the identity iff the product of that member verified alone is. *)
+From BP Require Import Proofs.EmbeddingP Proofs.BatchP Proofs.BatchEquivP.
+Theorem C03_embedding_product : forall (K : Fld), FldOk K -> forall (M : Mod K), ModOk K M ->
+  forall (ofN : N -> K) (toN : K -> N), (forall x, ofN (toN x) = x) ->
+  forall (enc : M -> N) (dec : N -> M), (forall p, dec (enc p) = p) ->
+  forall (g : gens K M) bits cap,
+  1 <= bits -> length (g_G g) = bits * cap -> length (g_Hv g) = bits * cap -> 1 <= length (g_Gb g) <= 6 ->
+  (2 * N.of_nat bits * N.of_nat cap < 2 ^ 64)%N -> enc (g_H g) <> 0%N -> Forall (fun q => enc q <> 0%N) (g_Gb g) ->
+  forall (pre post : list (hparams K)) (mb : member K) ws pad,
+  let ms := map (hmember K M toN enc g bits cap) pre ++ mb :: map (hmember K M toN enc g bits cap) post in
+  let w := nth (length pre) ws (f0 K) in
+  let mx := bits * cap in
+  Forall (hp_ok K M enc g bits cap) pre -> Forall (hp_ok K M enc g bits cap) post ->
+  passes_guards K M g mb -> mb_N K mb <= mx ->
+  let sc := final_msm K (acc_all K (acc_init K mx (length (g_Gb g))) (terms_list K ofN ms ws)) pad in
+  vadd M (msm (fst sc) (interleaveM K M (g_G g) (g_Hv g))) (msm (snd sc) (flat_map (dyn_of K M) (map (pts_of K M dec) ms) ++ g_Gb g ++ [g_H g]))
+  = smul M w (b_residual K M (g_H g) (g_Gb g) (g_G g) (g_Hv g) (to_b K M ofN dec mb w)).
+Proof.
+  intros K Kok M Mok ofN toN OT enc dec DE g bits cap Hb LG LH HT Hpad EH EGb.
+  exact (embedding_product K Kok M Mok ofN toN OT enc dec DE g bits cap Hb LG LH HT Hpad EH EGb).
+Qed.
+Print Assumptions C03_embedding_product.
+
+Theorem C03_embedding_sound : forall (K : Fld), FldOk K -> forall (M : Mod K), ModOk K M ->
+  forall (ofN : N -> K) (toN : K -> N), (forall x, ofN (toN x) = x) ->
+  forall (enc : M -> N) (dec : N -> M), (forall p, dec (enc p) = p) ->
+  forall (g : gens K M) bits cap,
+  1 <= bits -> length (g_G g) = bits * cap -> length (g_Hv g) = bits * cap -> 1 <= length (g_Gb g) <= 6 ->
+  (2 * N.of_nat bits * N.of_nat cap < 2 ^ 64)%N -> enc (g_H g) <> 0%N -> Forall (fun q => enc q <> 0%N) (g_Gb g) ->
+  forall (pre post : list (hparams K)) (mb : member K) ws w1 pad pad1,
+  let ms := map (hmember K M toN enc g bits cap) pre ++ mb :: map (hmember K M toN enc g bits cap) post in
+  let w := nth (length pre) ws (f0 K) in
+  let mx := bits * cap in
+  w <> f0 K -> w1 <> f0 K ->
+  Forall (hp_ok K M enc g bits cap) pre -> Forall (hp_ok K M enc g bits cap) post ->
+  passes_guards K M g mb -> mb_N K mb <= mx ->
+  let sc := final_msm K (acc_all K (acc_init K mx (length (g_Gb g))) (terms_list K ofN ms ws)) pad in
+  let sc1 := final_msm K (acc_all K (acc_init K mx (length (g_Gb g))) (terms_list K ofN [mb] [w1])) pad1 in
+  (vadd M (msm (fst sc) (interleaveM K M (g_G g) (g_Hv g))) (msm (snd sc) (flat_map (dyn_of K M) (map (pts_of K M dec) ms) ++ g_Gb g ++ [g_H g])) = v0 M
+   <->
+   vadd M (msm (fst sc1) (interleaveM K M (g_G g) (g_Hv g))) (msm (snd sc1) (flat_map (dyn_of K M) (map (pts_of K M dec) [mb]) ++ g_Gb g ++ [g_H g])) = v0 M).
+Proof.
+  intros K Kok M Mok ofN toN OT enc dec DE g bits cap Hb LG LH HT Hpad EH EGb.
+  exact (embedding_sound K Kok M Mok ofN toN OT enc dec DE g bits cap Hb LG LH HT Hpad EH EGb).
+Qed.
+Print Assumptions C03_embedding_sound.
